@@ -412,7 +412,7 @@ fn add_bursts(spec: &mut Spec, rng: &mut Rng, o: &TimerOpts, n: usize, lat: &[u6
     if rng.chance(1, 2) {
         let node = rng.usize(n);
         spec.nodes[node].key_slots = 6;
-        let k = rng.range(3, 6) as usize;
+        let k = if cfg!(miri) { 3 } else { rng.range(3, 6) as usize };
         let mut acts = Vec::new();
         let mut keyed_slots = Vec::new();
         for j in 0..k {
@@ -436,7 +436,8 @@ fn add_bursts(spec: &mut Spec, rng: &mut Rng, o: &TimerOpts, n: usize, lat: &[u6
     }
     // Driver-origin burst at the beginning of the command list (time = start).
     let mut burst = Vec::new();
-    let k = rng.range(3, 8) as usize;
+    // Under Miri every invocation costs seconds: smaller bursts.
+    let k = if cfg!(miri) { 3 } else { rng.range(3, 8) as usize };
     let target = rng.usize(n);
     let mut keyed_slots = Vec::new();
     for j in 0..k {
